@@ -27,6 +27,7 @@ DOC = {
  "C19.R6": "job metadata: every split_off(k) / try_into().unwrap() on peer bytes is dominated by a length comparison that guarantees k bytes",
  "C19.R7": "tables agree: frame header written with u64::to_be_bytes and read with read_u64; every numeric BytesConvertable impl pairs to_be_bytes with from_be_bytes",
  "C19.R9": "round trip, structural part: no narrowing integer `as` cast in any BytesConvertable::into_bytes; an Option encoded as map(f).unwrap_or(K) has f provably != K (recognised: saturating_add(_, c>=1) with K = 0)",
+ "C19.R11": "built-in vector codecs (Vec<numeric>::into_bytes / from_bytes): every iteration of the element loop performs the element copy -- no value-dependent skip (necessary for round-trip; equality of values itself is not decided)",
  "C19.R10": "= C20.R2: args, variant and metadata of an inbound Cast/Call frame reach the SerializedMessage unchanged in every branch (timed and untimed)",
  "C19.R8": "limit plumbing: every NodeSession the node server creates gets with_max_inbound_frame_size(self.max_inbound_frame_size); the session hands its limit to the transport and the reader passes it to the frame reader",
 }
@@ -506,6 +507,31 @@ def r10(run, db):
     c20.r2(run, db)
 
 
+def r11(run, db):
+    """`encode followed by decode yields the original value` -- the part of it that is in the shape of the code: the element-wise
+    codecs of the built-in vector types treat every element alike.  In each loop of `Vec<numeric>::into_bytes / from_bytes` every
+    iteration performs the element copy; no path goes from the element just taken back to the loop head around it (a skip that
+    depends on the element's value -- `if item == 0 { continue }` over a zeroed buffer -- is invisible for integers and loses
+    the sign of a float's negative zero).  Decides this necessary condition only, not equality of values."""
+    fs_ = [f for f in db.crate_fns("ractor") if re.search(r"serialization::impls::<impl ractor::serialization::BytesConvertable for std::vec::Vec<\w+>>::(into_bytes|from_bytes)$", f.id)]
+    run.anchor("vector codecs of built-in numeric types", len(fs_), 20)
+    nloops = 0
+    for f in fs_:
+        run.saw(len(f.blocks), f)
+        nx = [c for c in f.calls() if c.matches(r"Iterator::next$|::next$") and f.in_cycle(c.site)]
+        cp = [c for c in f.calls() if c.matches(r"copy_from_slice$") and f.in_cycle(c.site)]
+        for n in nx:
+            e = nested_variant_edge(f, n, ["Some"])
+            if e is None or not cp:
+                continue
+            nloops += 1
+            key = "every-element-copied:%s::%s" % (re.search(r"Vec<(\w+)>", f.id).group(1), f.id.split("::")[-1])
+            run.check(f.must_pass(Site(e[1], 0), [c.site for c in cp], to_sites=[n.site]), key,
+                      "every iteration of the element loop performs the element copy",
+                      "%s can skip the copy of an element (a path from the element just taken back to the loop head avoids copy_from_slice): the skipped element keeps the buffer's initial bytes, e.g. a float -0.0 compared equal to 0.0 is sent as +0.0" % f.id, f.where())
+    run.anchor("element loops in the vector codecs", nloops, 20)
+
+
 Q = ["rc"]
 TH = ["rc", "rcatr", "ws"]
 RULES = [
@@ -519,6 +545,7 @@ RULES = [
     {"id": "C19.R8", "fn": r8, "quick": Q, "thorough": TH},
     {"id": "C19.R9", "fn": r9, "quick": Q, "thorough": TH},
     {"id": "C19.R10", "fn": r10, "quick": Q, "thorough": ["rc", "rcatr"]},
+    {"id": "C19.R11", "fn": r11, "quick": Q, "thorough": ["rc", "rcatr"]},
 ]
 from .positive import control
 RULES.append({"id": "C19.P", "fn": control('alloc'), "quick": ["pos"], "thorough": ["pos"]})
